@@ -11,5 +11,5 @@ CONSTANTS
   Probes <- IProbes
   PMatch <- IMatchRef
   Prep <- IPrep
-CONSTRAINTS Report ReportStuck
+INVARIANTS MergeEnds Ordered LookupAnswerOk
 CHECK_DEADLOCK FALSE
